@@ -3413,7 +3413,7 @@ impl Machine {
             addr
         } else {
             match Number::try_from((addr, &self.machine_st.arena.f64_tbl)) {
-                Ok(Number::Integer(ref n)) if (**n).num_eq(&1_i64) => {
+                Ok(Number::Integer(ref n)) if (**n).num_eq(&-1_i64) => {
                     fixnum_as_cell!(Fixnum::build_with(-1))
                 }
                 Ok(Number::Fixnum(n)) if n.get_num() == -1_i64 => {
